@@ -137,13 +137,15 @@ def run_prop(pid, tier, replay=None):
     ]
     if pid == "C04":
         assumptions = common + [
-            "regexp and goa.ValidateFormat answers are recorded per case and enter the model as oracle tables; theorems hold for every oracle",
+            "regexp and format answers (net/netip for ipv4 / ipv6, goa.ValidateFormat for the format names only goa defines) are recorded per case "
+            "and enter the model as oracle tables; theorems hold for every oracle",
             "unions, multipart and streaming endpoints, views and gRPC are not modelled",
         ]
     else:
         assumptions = common + [
             "schema semantics (Schema.accepts) is the JSON-Schema reading of the emitted keywords; kin-openapi v0.128.0 openapi3filter is the "
-            "named oracle of tier B, with goa.ValidateFormat registered as the validator of every format goa knows",
+            "named oracle of tier B, with its own validators for ipv4 / ipv6 and goa.ValidateFormat registered as the validator of the format "
+            "names only goa defines (their exactness is property C17's)",
             "numeric exclusiveMinimum / exclusiveMaximum are rewritten to the OpenAPI 3.0 boolean form before the document is loaded (recorded finding)",
             "responses are checked for results that satisfy the design and for documented status codes only",
         ]
@@ -151,7 +153,7 @@ def run_prop(pid, tier, replay=None):
                      trusted_base=["translate/c04 (go/ast + regexp extraction of the validation templates; fails closed)",
                                    "harness/cmd/c04 (designs, boundary mutants, independent evaluator, extraction of goa's expressions, Coq term printing)",
                                    "harness/designgen, harness/tierb (DSL interpreter, generated stubs, driver runtime)",
-                                   "kin-openapi v0.128.0 (C14 tier B oracle)" if pid == "C14" else "Go regexp, goa.ValidateFormat (oracles of the independent evaluator)"],
+                                   "kin-openapi v0.128.0 (C14 tier B oracle)" if pid == "C14" else "Go regexp, net/netip, goa.ValidateFormat (oracles of the independent evaluator)"],
                      coqchk_files=cfg["coqchk"])
 
 
